@@ -1085,6 +1085,9 @@ def _as_real(x):
 def _real_op(a, b, op):
     if isinstance(a, SFP) or isinstance(b, SFP) or isinstance(a, UVal) or isinstance(b, UVal):
         return NotImplemented
+    if type(a).__module__ == "numpy" and hasattr(a, "shape") and getattr(a, "shape", ()) != () or \
+            hasattr(b, "shape") and getattr(b, "shape", ()) != () and hasattr(b, "__array_ufunc__"):
+        return NotImplemented          # scalar (op) array: let the array's reflected operator broadcast
     try:
         a, b = _as_real(a), _as_real(b)
     except TypeError:
